@@ -33,7 +33,13 @@ SPEC = dict(
          "4 / 5 over {start, encrypt ok/fail, IQ result/error, decrypt ok/not-encrypted/fail, extension removed} against the Sensitive "
          "machine. Translator promise_sites.py regenerates the table of every QXmppPromise construction and chain*/parseIq use in "
          "src/client (79 sites today); part C runs one case per request-API function it can reach (each first in a forked probe, so a "
-         "crashing converter is reported instead of killing the harness); coverage = stats api_functions_exercised / api_functions_found.",
+         "crashing converter is reported instead of killing the harness); coverage = stats api_functions_exercised / api_functions_found; per waiter the delivered VALUE is checked too (the stanza "
+         "error the entity returned, the cancellation error after an unanswered session end, for results the id of the answered request). "
+         "(G, harness iqreent, library built with ASan+UBSan) re-entrant continuations: completion site {response, send failure, "
+         "resetCache, session opened not resumed, session closed not resumable, destruction} x continuation body {none, send a new "
+         "request, send with the SAME id, end the session, open a new session} x {1,2,3,7,14} pending requests (libstdc++ rehash "
+         "thresholds), each in a forked child: every request incl. those started inside continuations completes exactly once, no "
+         "sanitizer report; passing scenarios are also compared with the model as `seq <site op> ;; <body op>`.",
     trusted_base=[
         "Lean 4.33.0 kernel; axioms per theorem listed under coverage.theorems (subset of propext, Classical.choice, Quot.sound)",
         "translators/promise_sites.py (regex reader; anchors: shape of chain/chainIq/chainSuccess/chainMapSuccess in QXmppFutureUtils_p.h, "
@@ -53,7 +59,13 @@ SPEC = dict(
         "element received' and disconnects, which cancels all requests (modelled; servers do not relay such elements)",
         "sender comparison is string equality with the recorded addressee, as in the code: case variants and bare/full variants of the "
         "addressee do not complete a request (it then completes at the next non-resumable session end)",
-        "a request stays pending while the peer is silent and the session lives or is resumable: timeouts are the caller's domain",
+        "a request stays pending while the peer is silent and the session lives or is resumable: the library has NO request "
+        "timeout (OutgoingIqManager, QXmppTask and the combinators contain no timer; only the keep-alive ping timeout ends a dead "
+        "connection, which is a session end) — timing out a silent peer is the caller's domain and outside this property",
+        "re-entrancy: a continuation attached to a request task runs synchronously inside the completion; it is modelled as the "
+        "operations it performs, placed right after the completing operation in the history (exact once the entry is detached "
+        "before the promise is finished, fixes/C07-reentrant-completion.diff; checked by part G under ASan+UBSan). Calling into a "
+        "client that is being destroyed, or destroying the client from inside a continuation it is running, is outside the contract",
         "chain/chainIq/chainSuccess: the attach-one-continuation-and-finish pattern is proved on the C13 task model (chain_once, "
         "chain_once_ready, chain_at_most_once); that each manager API is built only from these combinators is not checked by a "
         "translator — superseded: translators/promise_sites.py + all_chain_sites_pure now check that every chain-like site in src/client "
@@ -73,8 +85,8 @@ SPEC = dict(
                "without (resumable) stream management leaves nothing pending, for every history. Blocklist machine: every fetchBlocklist call completes exactly once once the shared IQ is answered or a new session begins. "
                "Sensitive machine: the promise of sendSensitiveIq is finished exactly when the pipeline has ended, once, and no stage can stall it. "
                "Site table: every chain-like site is pure-chain, every promise construction is a classified hand-rolled site. "
-               "chain_once: a task built by chain finishes exactly once when its source does "
-               "(context alive), at most once always.",
+               "chain_once: a task built by chain finishes exactly once when its source is finished, for any interlude of handle copies, "
+               "handle drops that leave a handle, and destructions of other contexts (context alive, continuation not replaced); at most once always.",
     level_note="Proved about the hand-written models; model-to-code tie is differential (exhaustive to a depth, sampled beyond). "
                "Continuation chaining and the other managers are checked by direct counting on the implementation only.",
     design_ref="5.7",
